@@ -37,7 +37,7 @@ m = {
         {'name': 'E1 cbmc-fp', 'path': 'lpv/e1.py', 'serves_properties': [c['property_id'] for c in checks if 'e1' in c['engine']], 'kind_free_text': 'CBMC 6.11 code contracts (goto-instrument --dfcc, loop contracts) on the C mirror emitted from the same IR; bit-precise'},
     ],
     'checks': checks,
-    'notes': 'See DESIGN.md. Contracts: contracts/*.spec; goals per property: properties/<id>.goals; known findings: known_findings.json.',
+    'notes': 'See DESIGN.md (section 10 is the as-built state). Contracts: contracts/*.spec; goals per property: properties/<id>.goals; known findings: known_findings.json. Both tiers decide the same obligations (contract-based deductive verification; evidence counts only those). The thorough tier additionally runs the witness drivers of the property (replay/w_*.cpp: executions of the real code under ASan/UBSan on inputs derived from the contract clauses -- testing, labelled as such under coverage.witness_replays), the committed seeded changes of the property as a self-test, and for C20 the four-build validation of assumption A7. A witness driver is also what supplies the failing input when an obligation fails, or when it is undecided / cannot be generated after a change of the code.',
     'not_applicable': napp,
 }
 json.dump(m, open(os.path.join(ROOT, 'MANIFEST.json'), 'w'), indent=1)
